@@ -26,6 +26,30 @@ pub fn models() -> Vec<Model> {
         build(OptimizationType::Max, Exp::Abs(Box::new(v("x"))),
             vec![Constraint::new(v("x"), Comparison::LessOrEqual, k(2.0), "cap".into())],
             &[d("x", VariableType::Real(-3.0, 3.0))]),
+        // C01 (fixed b9d407a): integer range rounded within the tolerance is wider than the box used for pruning
+        build(OptimizationType::Max, v("n"),
+            vec![Constraint::new(Exp::Max(vec![v("n"), k(4.9999999995)]), Comparison::LessOrEqual, k(4.9999999995), "".into())],
+            &[d("n", VariableType::IntegerRange(0, 10))]),
+        // C01 (fixed cce0e38): infeasible model, integer variable left without an integral point, frozen box used for pruning
+        build(OptimizationType::Min, Exp::BinOp(BinOp::Add, Box::new(Exp::BinOp(BinOp::Add, Box::new(k(4.0)), Box::new(Exp::BinOp(BinOp::Div, Box::new(v("x")), Box::new(k(2.0)))))), Box::new(v("x"))),
+            vec![Constraint::new(Exp::Max(vec![
+                    Exp::BinOp(BinOp::Add, Box::new(Exp::BinOp(BinOp::Add, Box::new(Exp::BinOp(BinOp::Add, Box::new(k(-1.0)), Box::new(v("x")))), Box::new(v("x")))), Box::new(k(2.0))),
+                    Exp::BinOp(BinOp::Div, Box::new(v("x")), Box::new(k(4.0)))]),
+                Comparison::LessOrEqual, v("x"), "a".into())],
+            &[d("x", VariableType::IntegerRange(-1, 3))]),
+        // C10 (fixed de2e7f6): a coefficient written as a constant sum in front of a max
+        build(OptimizationType::Min, v("x"),
+            vec![Constraint::new(Exp::BinOp(BinOp::Mul, Box::new(Exp::BinOp(BinOp::Add, Box::new(k(-4.0)), Box::new(k(1.0)))), Box::new(Exp::Max(vec![Exp::BinOp(BinOp::Add, Box::new(v("x")), Box::new(v("x"))), v("x")]))),
+                Comparison::GreaterOrEqual, k(0.0), "".into())],
+            &[d("x", VariableType::Real(f64::NEG_INFINITY, f64::INFINITY))]),
+        // C07 (fixed 4e5bd4b): a huge constant absorbing a small range
+        build(OptimizationType::Max, v("x"),
+            vec![Constraint::new(Exp::Max(vec![v("x"), v("y")]), Comparison::LessOrEqual, k(1e16), "".into())],
+            &[d("x", VariableType::NonNegativeReal(0.0, 1.0)), d("y", VariableType::NonNegativeReal(0.0, 1.0))]),
+        // C10 (fixed 9f62afd): division by zero below an absorbing constant
+        build(OptimizationType::Min, v("x"),
+            vec![Constraint::new(Exp::BinOp(BinOp::Add, Box::new(Exp::BinOp(BinOp::Mul, Box::new(k(0.0)), Box::new(Exp::BinOp(BinOp::Div, Box::new(v("x")), Box::new(k(0.0)))))), Box::new(v("x"))), Comparison::GreaterOrEqual, k(1.0), "".into())],
+            &[d("x", VariableType::Real(0.0, 5.0))]),
         // duplicate names
         build(OptimizationType::Min, v("x"),
             vec![Constraint::new(v("x"), Comparison::GreaterOrEqual, k(1.0), "a".into()),
